@@ -194,7 +194,7 @@ struct CliWorld : World {
             } else if (c < 97) {
                 // write a checksum list for the current files, optionally spoil something, then check it
                 {
-                    std::vector<int64_t> a = {(int64_t)r.below(4), (int64_t)(1 + r.below(7)), (int64_t)r.below(8), (int64_t)(r.next() >> 1)};
+                    std::vector<int64_t> a = {(int64_t)r.below(4), (int64_t)(1 + r.below(7)), (int64_t)r.below(12), (int64_t)(r.next() >> 1)};
                     for (int k = 0; k < 2; ++k) { // transient read faults only (asconsum reads through stdio: short fread transfers)
                         if (!faulty || !r.chance(1, 2)) { a.insert(a.end(), {0, 0, 0, 0}); continue; }
                         a.insert(a.end(), {SYS_FREAD, 1 + (int64_t)r.below(7), FK_SHORT, 1 + (int64_t)r.below(40)});
@@ -979,7 +979,7 @@ struct CliWorld : World {
         int alg = (int)(op.arg(0) % 4);
         std::vector<std::string> files = pick_files(c, op.arg(1));
         if (files.empty()) return;
-        int spoil = (int)(op.arg(2) % 8);
+        int spoil = (int)(op.arg(2) % 12);
         Rng r(op.u(3));
         // build the list from the current content
         std::string list;
@@ -998,6 +998,18 @@ struct CliWorld : World {
         if (expect_ok.empty()) return;
         if (spoil == 1) { list += "zz not a checksum line\n"; any_bad = true; c.run->fault("sum.malformed_line"); }
         if (spoil == 2) { list += std::string(64, 'a') + "  no-such-file\n"; any_bad = true; c.run->fault("sum.missing_file"); }
+        // a missing file whose listed digest is the digest of the entry just before it (a copy that has since been removed)
+        if (spoil == 8 || spoil == 11) {
+            std::string last = list.substr(list.rfind('\n', list.size() - 2) == std::string::npos ? 0 : list.rfind('\n', list.size() - 2) + 1, 64);
+            if (spoil == 11) for (auto &ch : last) ch = (char)toupper(ch);
+            list += last + "  no-such-file\n";
+            any_bad = true;
+            c.run->fault("sum.missing_file_same_digest_as_previous");
+        }
+        // a missing file on the first line, listed with an all-zero digest
+        if (spoil == 9) { list = std::string(64, '0') + "  no-such-file\n" + list; any_bad = true; c.run->fault("sum.missing_file_zero_digest_first"); }
+        // the same file listed twice
+        if (spoil == 10) { list += list.substr(0, list.find('\n') + 1); c.run->probe("chk.file_listed_twice"); }
         if (spoil == 7) { list += "\n\n"; }
         vfs_put("sums.txt", (const unsigned char *)list.data(), list.size());
         // modify one listed file after the list was written
